@@ -1,17 +1,19 @@
 #!/bin/sh
-# usage: tools/try_mutation.sh <patch.diff> <Cxx> [tier] : apply the patch to /repo, run the check, undo
+# usage: tools/try_mutation.sh <patch.diff> <Cxx> [tier] : apply the patch to /repo, run the check, undo.
+# Works from any copy of the verification tree (the copy this script lives in is the one that runs).
 set -u
+V="$(cd "$(dirname "$0")/.." && pwd)"
 P="$1"; ID="$2"; TIER="${3:-quick}"
 cd /repo || exit 2
 if [ -n "$(git status --porcelain)" ]; then echo "/repo not clean"; exit 2; fi
 git apply "$P" || { echo "patch does not apply"; exit 2; }
-cd /verif
-./check "$ID" "$TIER" > /tmp/try_$ID.log 2>&1
+cd "$V"
+./check "$ID" "$TIER" > "$V/.cache/try_$ID.log" 2>&1
 RC=$?
 git -C /repo checkout -- .
 # restore the committed Generated files (they were regenerated from the mutated tree)
-git -C /verif checkout -- coq/Generated 2>/dev/null
+git -C "$V" checkout -- coq/Generated 2>/dev/null
 # the evidence file was rewritten from the mutated tree: restore the committed one
-git -C /verif checkout -- "evidence/$ID.json" 2>/dev/null
+git -C "$V" checkout -- "evidence/$ID.json" 2>/dev/null
 echo "rc=$RC"
-grep -E "^VIOLATION|^KNOWN|PROOF BROKEN|done:" /tmp/try_$ID.log | cut -c1-300
+grep -E "^VIOLATION|^KNOWN|PROOF BROKEN|done:" "$V/.cache/try_$ID.log" | cut -c1-300
